@@ -3,7 +3,7 @@ CONSTANTS
   MaxTasks = 3
   NChan = 1
   Budget = 1
-  MaxOver = 100
+  MaxOver = 3
   YieldFree = TRUE
   MaxRoots = 3
   MaxExt = 1
